@@ -54,24 +54,38 @@ META = {
              "List/Dict/Set mutators with multi-item arguments and custom item/key/value "
              "validators, whole-container assignment, first reads of defaults (factory, "
              "_x_default, validated default), property get/set incl. cached observed and "
-             "depends_on properties, Supports() assignment through a private global "
+             "depends_on properties (cached and uncached), Supports/Instance/AdaptsTo assignment in "
+             "both adaptation modes (adapt='yes' and adapt='default') through a private global "
              "AdaptationManager with two-step and conditional adapter chains, nested "
-             "Instance child) x a random set of static / on_trait_change / observe handlers. "
+             "Instance child; 20% of the histories are a property stratum, 10% an adaptation "
+             "stratum, with listeners forced on the traits concerned) x a random set of static / on_trait_change / observe handlers. "
              "Per history the fault space is ENUMERATED: every operation j x every user-callback "
              "tick k <= n_j (learnt from a fault-free twin) x E in {TraitError, ValueError, "
              "AttributeError, RuntimeError}. distinct_nontrivial = distinct (operation kind, "
              "callback kind, role, E, outcome class) signatures of injected faults."),
     "phases": [{"name": "main", "flavour": "P", "shards": 16}],
     "gates": {
-        "quick": dict({"histories": 200, "faults_injected": 15000, "precommit_judged": 10000,
+        "quick": dict({"histories": 200, "histories:property": 40, "histories:adapt": 20,
+                       "faults_injected": 15000, "precommit_judged": 9000,
                        "postcommit_judged": 5000, "followup_ops_compared": 60000,
-                       "postcommit_getter_faults": 300, "alt_twin_compared": 80,
-                       "alt_natural_reject_compared": 60},
+                       "postcommit_getter_faults": 300, "postcommit_getter_faults:dp": 200,
+                       "postcommit_getter_faults:cp": 200,
+                       "cached_property_renotified_after_fault:dp": 100,
+                       "cached_property_renotified_after_fault:cp": 100,
+                       "faults:adapter-factory:default-mode": 400,
+                       "faults:adapter-factory:default-mode:holding-value": 100,
+                       "alt_twin_compared": 80, "alt_natural_reject_compared": 60},
                       **{"faults:" + k: 60 for k in _KINDS}),
-        "thorough": dict({"histories": 3000, "faults_injected": 250000, "precommit_judged": 160000,
+        "thorough": dict({"histories": 3000, "histories:property": 600, "histories:adapt": 300,
+                          "faults_injected": 250000, "precommit_judged": 140000,
                           "postcommit_judged": 80000, "followup_ops_compared": 1000000,
-                          "postcommit_getter_faults": 5000, "alt_twin_compared": 1200,
-                          "alt_natural_reject_compared": 900},
+                          "postcommit_getter_faults": 5000, "postcommit_getter_faults:dp": 3000,
+                          "postcommit_getter_faults:cp": 3000,
+                          "cached_property_renotified_after_fault:dp": 1500,
+                          "cached_property_renotified_after_fault:cp": 1500,
+                          "faults:adapter-factory:default-mode": 6000,
+                          "faults:adapter-factory:default-mode:holding-value": 1500,
+                          "alt_twin_compared": 1200, "alt_natural_reject_compared": 900},
                          **{"faults:" + k: 1000 for k in _KINDS}),
     },
     "exhaustive_parts": ("for each generated history, all (operation j, callback tick k, exception "
@@ -1086,7 +1100,9 @@ def first_pre_complaint(E, r, pre):
     """Clause (i) of the pre-commit rule; returns (complaint or None, detail)."""
     pv, pc, pids = pre
     if r.out[0] == "ok":
-        return "wrong-exception:none", "the operation returned normally"
+        dv = diff_values(pv, r.vals, (pids, r.ids))
+        return "wrong-exception:none", ("the operation returned normally; state changed: %r; notifications: %r"
+                                        % ([(k, pv.get(k), r.vals.get(k)) for k in dv[:4]], strip(r.log)[:4]))
     if not (type(r.exc) is E or isinstance(r.exc, TraitError)):
         return "wrong-exception:" + type(r.exc).__name__, "caller saw %r" % (r.exc,)
     dv = diff_values(pv, r.vals, (pids, r.ids))
